@@ -122,7 +122,7 @@ def unit_glue(ctx, dtype, ndim, backend):
         CB = e.resolve("panoptica.utils.constants.CCABackend")
         be = None if backend is None else CB.members[backend]
         ap = e.call(e.resolve(IA + "ConnectedComponentsInstanceApproximator"), [], {"cca_backend": be})
-        return [ap, pair], {}, {"sp": sp, "P": P, "R": Rr, "rec": rec}
+        return [ap, pair], {}, {"sp": sp, "P": P, "R": Rr, "rec": rec, "oid_limit": SObj._ids[0], "ev0": len(e.events)}
     fn = IA + "ConnectedComponentsInstanceApproximator._approximate_instances"
     snaps = []
 
@@ -152,6 +152,9 @@ def unit_glue(ctx, dtype, ndim, backend):
                    "ref": [c for c in calls if c["term"].eq(rv)]}
         by_side["pred"] = [c for c in calls if c["term"].eq(pv)]
         others = [c for c in calls if not c["term"].eq(pv) and not c["term"].eq(rv)]
+        writes = [ev for ev in p.events[p.state["ev0"]:] if ev[0] == "setattr" and ev[1] <= p.state["oid_limit"]]
+        ctx.oblige(f"{nm}/frame(the approximator and the input pair are not modified: no state carried to the next call)#p{pi}", [], z3.BoolVal(not writes), func=fn,
+                   replay="c05.history", info={"writes": str(writes[:3])})
         ctx.oblige(f"{nm}/post(the backend receives the semantic maps themselves - not binarised, not mixed)#p{pi}", [], z3.BoolVal(not others and len(by_side["pred"]) <= 1 and len(by_side["ref"]) <= 1),
                    func=fn, replay="c05.e2e", info={"dtype": dtype, "ndim": ndim, "backend": backend})
         ctx.oblige(f"{nm}/post(backend choice: {want_backend}; default by dimensionality)#p{pi}", [],
